@@ -5,6 +5,7 @@
    set of documented outcomes (written from the docstrings / the property statement, not from the code):
      pdu.decode                     value | nfc.llcp.pdu.DecodeError
      dep.Initiator/Target.decode_frame   value | None (not this PDU) | nfc.clf.ProtocolError | TransmissionError
+     dep.Initiator/Target.exchange       data | None | a nfc.clf.CommunicationError subclass (peer's answers scripted)
      Type3TagEmulation.process_command   response bytes | None (command ignored)
      SnepServer.process_snep_request     response bytes
      HandoverServer._process_request_data  response bytes
@@ -20,12 +21,15 @@
 EXTENDS Naturals, Sequences, FiniteSets, TLC
 
 \* ---------------------------------------------------------------- part A
-Entries == {"pdu.decode", "dep.I.decode_frame", "dep.T.decode_frame", "tt3emu.process_command",
+Entries == {"pdu.decode", "dep.I.decode_frame", "dep.T.decode_frame", "dep.I.exchange", "dep.T.exchange", "tt3emu.process_command",
             "snep.process_snep_request", "handover._process_request_data", "llc.dispatch"}
 Allowed(entry, cls, exc) ==
     CASE entry = "pdu.decode" -> cls = "value" \/ (cls = "raise" /\ exc = "DecodeError")
       [] entry \in {"dep.I.decode_frame", "dep.T.decode_frame"} ->
              cls \in {"value", "none"} \/ (cls = "raise" /\ exc \in {"ProtocolError", "TransmissionError"})
+      [] entry \in {"dep.I.exchange", "dep.T.exchange"} ->        \* data | None (link released) | a CommunicationError
+             cls \in {"value", "none"} \/ (cls = "raise" /\ exc \in {"ProtocolError", "TransmissionError", "TimeoutError",
+                                                                     "BrokenLinkError"})
       [] entry = "tt3emu.process_command" -> cls \in {"value", "none"}
       [] entry \in {"snep.process_snep_request", "handover._process_request_data"} -> cls = "value"
       [] entry = "llc.dispatch" -> cls \in {"value", "none"}          \* dispatch of a decoded PDU never raises
